@@ -442,6 +442,8 @@ class Table(JupyterMixin):
     def _calculate_column_widths(self, console: "Console", max_width: int) -> List[int]:
         """Calculate the widths of each column, including padding, not including borders."""
         columns = self.columns
+        if not columns:
+            return []
         width_ranges = [
             self._measure_column(console, column, max_width) for column in columns
         ]
